@@ -9,6 +9,7 @@ package main
 // events, in the order they really happened (logged under one mutex):
 //
 //	R <pattern> <method>                                         Handle returned (between requests only)
+//	Q <pattern> <method>                                         Handle panicked (route rejected); the harness recovered and goes on with the Mux
 //	B <k> <path> <method> <who> <status> <id> <any> {<value>}*nn   request k entered its handler; everything read through the Store
 //	W <k> <code>                                                 request k's handler called W.WriteHeader(code), or its relay (Logger.Relay: 200 at
 //	                                                             REQ_END, 500 after a recovered panic) changed W.Status to <code>
@@ -103,6 +104,9 @@ type reqSpec struct {
 	behave     int
 	code       int
 	flush      int // 0 no Flush, 1 Flush before WriteHeader, 2 after
+	// the handler REPLACES the exported Store.W (a wrapper writer with status 201 over the same Origin) and/or Store.P
+	// (a copy of the current Params) and leaves them there, as a middleware might
+	replaceW, replaceP bool
 	// forced overlap: the handler signals entered and waits for release before it goes on
 	entered, release chan struct{}
 	once             *sync.Once
@@ -151,7 +155,8 @@ var allNames = []string{"a", "A", "ab", "abc", "b", "B", "i", "id", "ID", "Id", 
 type world struct {
 	mux    *httpd.Mux
 	lg     *logger.Logger
-	routes []route
+	routes []route // accepted, in order: route ids
+	atts   []route // every registration attempt, accepted or rejected
 	mu     sync.Mutex
 	events []string
 	nev    int
@@ -257,6 +262,14 @@ func (w *world) handlerGen(idx int, gen int) httpd.HandlerFunc {
 			}
 			w.event("F", strconv.Itoa(c.k))
 		}
+		if c.spec.replaceP {
+			s.P = &httpd.Params{K: append([]string(nil), s.P.K...), V: append([]string(nil), s.P.V...)}
+		}
+		if c.spec.replaceW {
+			s.W = &httpd.ResponseWriter{Origin: s.W.Origin, Status: 201}
+			o.own = 201
+			w.event("W", strconv.Itoa(c.k), "201")
+		}
 		if c.spec.flush == 1 {
 			flush()
 		}
@@ -307,16 +320,24 @@ func (w *world) relay(s *httpd.Store, gen int) {
 
 // register: false if Handle panicked
 func (w *world) register(r route) (ok bool) {
-	defer func() {
-		if recover() != nil {
-			ok = false
-		}
-	}()
+	w.atts = append(w.atts, r)
 	idx := len(w.routes)
-	w.routes = append(w.routes, r)
-	w.mux.Handle(r.pat, r.meth, w.handler(idx))
-	w.event("R", hk.Hxs(r.pat), hk.Hxs(r.meth))
-	return true
+	ok = func() (ok bool) {
+		defer func() {
+			if recover() != nil {
+				ok = false
+			}
+		}()
+		w.mux.Handle(r.pat, r.meth, w.handler(idx))
+		return true
+	}()
+	if ok {
+		w.routes = append(w.routes, r)
+		w.event("R", hk.Hxs(r.pat), hk.Hxs(r.meth))
+	} else {
+		w.event("Q", hk.Hxs(r.pat), hk.Hxs(r.meth)) // the caller of Handle recovers and keeps using the Mux
+	}
+	return ok
 }
 
 // serve: runs one request; escaped reports a panic leaving ServeHTTP
@@ -342,7 +363,7 @@ func (w *world) serve(k int, q *reqSpec) (c *reqCtx, escaped bool) {
 type served struct {
 	k       int
 	spec    reqSpec
-	nroutes int // routes registered when it was served
+	nroutes int // registration attempts made when it was served
 	o       obs
 	escaped bool
 }
@@ -394,7 +415,7 @@ func (h *history) judge(e *hk.Env, st *stats) {
 			st.escapeDiffers++ // informational only: whether ServeHTTP lets a handler panic through is not part of C05
 		}
 		fw := newWorld(false)
-		for _, r := range h.w.routes[:s.nroutes] {
+		for _, r := range h.w.atts[:s.nroutes] {
 			fw.register(r)
 		}
 		q := s.spec
@@ -461,6 +482,12 @@ func (h *history) judge(e *hk.Env, st *stats) {
 		if s.spec.flush != 0 {
 			st.flushes++
 		}
+		if s.spec.replaceW {
+			st.replacedW++
+		}
+		if s.spec.replaceP {
+			st.replacedP++
+		}
 		switch s.spec.behave {
 		case bRec:
 			st.recovered++
@@ -480,7 +507,7 @@ func (h *history) judge(e *hk.Env, st *stats) {
 
 type stats struct {
 	histories, requests, events, matched, noroute, recovered, escaped, withValues, distinctStores, violations int
-	escapeDiffers, flushes, rehandled, idOnlyRequests                                                         int
+	escapeDiffers, flushes, rehandled, idOnlyRequests, rejectedRegs, replacedW, replacedP                     int
 	lateMoreParams, overlapForced                                                                             int
 }
 
@@ -529,6 +556,38 @@ func genRoutes(r *hk.Rng, n int) []route {
 		res = append(res, route{pat, meth})
 	}
 	return res
+}
+
+// genBad: a registration Handle should reject (repeated or empty :name, unknown method, duplicate of an earlier route),
+// preferably under the prefix of an earlier attempt so that the nodes it leaves behind sit next to real routes
+func genBad(r *hk.Rng, atts []route) route {
+	tails := []string{"/:a/:a", "/:", "/k/:b/:b", "/:id/x/:id", "/:a/:A/:a", "/:ab/:b/:ab/x"}
+	base := "/r" + strconv.Itoa(r.Intn(5))
+	if len(atts) > 0 && r.Chance(75) {
+		parts := strings.Split(atts[r.Intn(len(atts))].pat, "/")
+		var keep []string
+		for _, p := range parts {
+			if p != "" && p != "*" {
+				keep = append(keep, p)
+			}
+		}
+		if len(keep) > 0 {
+			keep = keep[:1+r.Intn(len(keep))]
+			base = "/" + strings.Join(keep, "/")
+		}
+	}
+	switch k := r.Intn(100); {
+	case k < 70:
+		// a name of the tail may repeat one of the base: fine, still rejected (or accepted, whatever Handle says is logged)
+		return route{base + tails[r.Intn(len(tails))], "GET"}
+	case k < 80 && len(atts) > 0:
+		a := atts[r.Intn(len(atts))]
+		return route{strings.NewReplacer(":a", ":zz", ":b", ":a", ":id", ":b").Replace(a.pat) + "/", a.meth} // same shape, other names
+	case k < 90:
+		return route{base + "/x", []string{"FETCH", "", "get"}[r.Intn(3)]}
+	default:
+		return route{base + "/:id/:id", "*"}
+	}
 }
 
 var fillers = []string{"1", "22", "xy", "k", "x", ":a", "*", "%20"}
@@ -580,6 +639,12 @@ func genRequest(r *hk.Rng, routes []route) reqSpec {
 	if r.Chance(25) {
 		q.flush = 1 + r.Intn(2)
 	}
+	if r.Chance(8) {
+		q.replaceW = true
+	}
+	if r.Chance(8) {
+		q.replaceP = true
+	}
 	return q
 }
 
@@ -605,15 +670,18 @@ func sequentialHistory(e *hk.Env, r *hk.Rng, st *stats) {
 		if len(pending) > 0 && (len(h.w.routes) == 0 || r.Chance(15)) {
 			rt := pending[0]
 			pending = pending[1:]
-			if !h.w.register(rt) {
-				h.viol = append(h.viol, fmt.Sprintf("Handle(%q,%q) panicked", rt.pat, rt.meth))
-				break
-			}
+			h.w.register(rt) // whether Handle accepts it is judged by the specification (event R or Q)
 			if p := countParams(rt.pat); p > maxp {
 				if servedAny && maxp >= 0 {
 					st.lateMoreParams++
 				}
 				maxp = p
+			}
+			continue
+		}
+		if r.Chance(7) { // a registration that Handle rejects; the harness recovers, the Mux is used on
+			if !h.w.register(genBad(r, h.w.atts)) {
+				st.rejectedRegs++
 			}
 			continue
 		}
@@ -626,9 +694,9 @@ func sequentialHistory(e *hk.Env, r *hk.Rng, st *stats) {
 			}
 			st.rehandled++
 		}
-		q := genRequest(r, h.w.routes)
+		q := genRequest(r, h.w.atts)
 		c, esc := h.w.serve(k, &q)
-		h.served = append(h.served, served{k: k, spec: q, nroutes: len(h.w.routes), o: c.o, escaped: esc})
+		h.served = append(h.served, served{k: k, spec: q, nroutes: len(h.w.atts), o: c.o, escaped: esc})
 		servedAny = true
 		k++
 	}
@@ -656,7 +724,7 @@ func overlapHistory(e *hk.Env, r *hk.Rng, st *stats) {
 			q.entered, q.release, q.once = make(chan struct{}), make(chan struct{}), new(sync.Once)
 			hd := held{q: &q, done: make(chan served, 1), k: k}
 			k++
-			n := len(h.w.routes)
+			n := len(h.w.atts)
 			go func() {
 				c, esc := h.w.serve(hd.k, hd.q)
 				hd.q.signalEntered() // ServeHTTP ended without reaching the handler (it panicked earlier)
@@ -668,7 +736,7 @@ func overlapHistory(e *hk.Env, r *hk.Rng, st *stats) {
 			for j := 0; j < 1+r.Intn(3); j++ {
 				q2 := genRequest(r, h.w.routes)
 				c, esc := h.w.serve(k, &q2)
-				h.served = append(h.served, served{k: k, spec: q2, nroutes: len(h.w.routes), o: c.o, escaped: esc})
+				h.served = append(h.served, served{k: k, spec: q2, nroutes: len(h.w.atts), o: c.o, escaped: esc})
 				k++
 			}
 		}
@@ -705,7 +773,7 @@ func concurrentHistory(e *hk.Env, r *hk.Rng, st *stats, perWorker int) {
 		}
 		out := make([][]served, workers)
 		var wg sync.WaitGroup
-		n := len(h.w.routes)
+		n := len(h.w.atts)
 		for wk := 0; wk < workers; wk++ {
 			wg.Add(1)
 			go func(wk int) {
@@ -774,6 +842,35 @@ func run(e *hk.Env) error {
 		h.judge(e, &st)
 	}
 
+	{ // a rejected registration (recovered) leaves nodes behind; requests under it; then a route registered there
+		h := &history{w: newWorld(true), seq: true}
+		k := 0
+		serve := func(p string, q reqSpec) {
+			q.path, q.meth = p, "GET"
+			c, esc := h.w.serve(k, &q)
+			h.served = append(h.served, served{k: k, spec: q, nroutes: len(h.w.atts), o: c.o, escaped: esc})
+			k++
+		}
+		h.w.register(route{"/u/:id/:id", "GET"})
+		h.w.register(route{"/w/*", "GET"})
+		h.w.register(route{"/w/:a/:a", "GET"})
+		for _, p := range []string{"/u/5", "/u/5/6", "/w/1", "/zz"} {
+			serve(p, reqSpec{})
+		}
+		h.w.register(route{"/u/:id", "GET"})
+		for _, p := range []string{"/u/7", "/u/8", "/w/2"} {
+			serve(p, reqSpec{})
+		}
+		// handlers that replace Store.W / Store.P, then plain requests on the recycled Stores
+		serve("/u/9", reqSpec{replaceW: true})
+		serve("/u/10", reqSpec{})
+		serve("/u/11", reqSpec{replaceP: true})
+		serve("/u/12", reqSpec{})
+		serve("/zz", reqSpec{replaceW: true, replaceP: true, code: 404})
+		serve("/u/13", reqSpec{})
+		h.judge(e, &st)
+	}
+
 	nSeq, nOverlap, nConc, perWorker := 1500, 300, 60, 12
 	if e.Thorough() {
 		nSeq, nOverlap, nConc, perWorker = 40000, 6000, 1500, 25
@@ -835,6 +932,9 @@ func run(e *hk.Env) error {
 	e.Stats["id_only_history_requests_on_one_mux"] = st.idOnlyRequests
 	e.Stats["handler_panic_propagation_differs_from_relay_kind_(informational)"] = st.escapeDiffers
 	e.Stats["requests_with_Flush"] = st.flushes
+	e.Stats["registrations_rejected_by_Handle_and_recovered"] = st.rejectedRegs
+	e.Stats["requests_whose_handler_replaced_Store_W"] = st.replacedW
+	e.Stats["requests_whose_handler_replaced_Store_P"] = st.replacedP
 	e.Stats["HandleNoRoute_HandleRelay_again_between_requests"] = st.rehandled
 
 	races := raceReports(e)
